@@ -180,6 +180,9 @@ class Interp:
             ch = children(n)
             if not ch:
                 return [(p, 'return', None)]
+            if getattr(self, '_ret_lval', None) and self._ret_lval[-1]:
+                # inside a function that returns a reference: the returned object, not its value
+                return [(q, 'return', _LVal(lv)) for q, lv in self.lval(ch[0], p)]
             return [(q, 'return', v) for q, v in self.expr(ch[0], p)]
         if k == 'DeclStmt':
             res = [p]
@@ -439,6 +442,26 @@ class Interp:
                     return [(p, al.lv)]
                 return [(p, ('local', r['id'], n))]
             raise AnalysisBroken('unsupported reference %s at %s' % (r.get('kind'), pos(n)))
+        if k == 'CXXMemberCallExpr':
+            kind, name, did, obj = callee_of(n)
+            f = self.idx.func_by_id.get(did)
+            o = strip_noncast(obj) if obj else None
+            while o is not None and o['kind'] == 'ImplicitCastExpr' and o.get('castKind') == 'NoOp' and children(o):
+                o = strip_noncast(children(o)[0])
+            if f is not None and (f.body is not None or getattr(f, 'defn', None)) and o is not None and o['kind'] == 'CXXThisExpr' \
+                    and '&' in f.type.split('(')[0]:
+                # a member function that hands out a reference to one of the object's members (e.g. the stream a number selects)
+                self.__dict__.setdefault('_ret_lval', []).append(True)
+                try:
+                    res = self.inline(f, call_args(n), p, n)
+                finally:
+                    self._ret_lval.pop()
+                out = []
+                for q, rv in res:
+                    if not isinstance(rv, _LVal):
+                        raise AnalysisBroken('%s does not return an object on every path (%s)' % (f.qname, pos(n)))
+                    out.append((q, rv.lv))
+                return out
         if k == 'CXXOperatorCallExpr':
             kind, name, did, obj = callee_of(n)
             ch = children(n)
@@ -959,14 +982,26 @@ class Interp:
             for prm, v, an in zip(f.params, vals, arg_nodes):
                 q.locals[prm['id']] = self.convert(v, an, prm)
             self.depth += 1
+            rl = self.__dict__.setdefault('_ret_lval', [])
+            want_ref = bool(rl) and rl[-1] and getattr(self, '_ret_lval_depth', None) is None
+            if want_ref:
+                self._ret_lval_depth = self.depth
+            else:
+                rl.append(False)
             try:
                 res = self.stmt(f.body, q)
             finally:
                 self.depth -= 1
+                if want_ref:
+                    self._ret_lval_depth = None
+                else:
+                    rl.pop()
             for r, fl, rv in res:
                 r.locals = dict(saved) if r is q else {k: v for k, v in r.locals.items() if k in saved}
                 rt = tinfo(f.node.get('type', {}).get('qualType', '').split('(')[0].strip(), self.idx)
-                if rv is None:
+                if isinstance(rv, _LVal):
+                    pass
+                elif rv is None:
                     rv = const(1, 0)
                 elif rt and isinstance(rv, V):
                     rv = self.conv(rv, rt[0], False)
@@ -979,6 +1014,13 @@ class Interp:
             if args and prm.get('name') in args:
                 p.locals[prm['id']] = args[prm['name']]
         return self.stmt(f.body, p)
+
+
+class _LVal:
+    """An object (lvalue) returned by reference from an inlined member function."""
+
+    def __init__(self, lv):
+        self.lv = lv
 
 
 def strip_noncast_casts(n):
